@@ -524,7 +524,7 @@ def c04_r5(ctx):
     ctx.check(good, key(ai, "add"), f"add_import does not record the import as given: {[x.text() for x in o]}", ai.loc(), okmsg="add_import records names/from/level unchanged")
 
 
-@rule("C04.R6", "classes with forward references are rebuilt after all classes are defined", min_instances=3)
+@rule("C04.R6", "classes with forward references are rebuilt after all classes are defined", min_instances=3, also=["C06", "C09", "C01"])
 def c04_r6(ctx):
     repo = ctx.repo
     for fk in ("client_generators.result_types:ResultTypesGenerator.generate", "client_generators.input_types:InputTypesGenerator.generate"):
